@@ -80,7 +80,23 @@ type zzMRoute struct {
 }
 
 func (r *zzMRoute) RouteRule() api.RouteRule                   { return r.rule }
-func (r *zzMRoute) DirectResponseRule() api.DirectResponseRule { return nil }
+func (r *zzMRoute) DirectResponseRule() api.DirectResponseRule {
+	if zzDirect != nil {
+		return zzDirect
+	}
+	return nil
+}
+
+// zzDirect, when set, makes the mock route a direct-response route
+var zzDirect *zzMDirect
+
+type zzMDirect struct {
+	status int
+	body   string
+}
+
+func (r *zzMDirect) StatusCode() int { return r.status }
+func (r *zzMDirect) Body() string    { return r.body }
 func (r *zzMRoute) RedirectRule() api.RedirectRule {
 	if zzRedirect != nil {
 		return zzRedirect
@@ -193,6 +209,8 @@ type zzMSender struct {
 	headers int
 	ends    int
 	last    api.HeaderMap // the headers of the last response written to the client
+	datas   int
+	body    string
 	onHeaders func()      // environment hook: something happens while response headers are being written
 }
 
@@ -211,6 +229,10 @@ func (s *zzMSender) AppendHeaders(ctx context.Context, h api.HeaderMap, end bool
 	return nil
 }
 func (s *zzMSender) AppendData(ctx context.Context, b buffer.IoBuffer, end bool) error {
+	s.datas++
+	if b != nil {
+		s.body += string(b.Bytes())
+	}
 	if end {
 		s.ends++
 	}
